@@ -661,3 +661,122 @@ func c19GenWrap(r *vhRng) string {
 		c19JoinList(cs), len(cs)-1, fzField, strings.Join(sets, "/"), ibB, ibN, r.Intn(4), sset, hoff,
 		c19JoinList(c.par), c19JoinList(need), c.tBlk, c.tNum, strings.Join(ops, ";"))
 }
+
+// ---- merge-point cases ------------------------------------------------------------------------------
+//
+// The precommit GHOST is a block nobody voted for directly: below the round base there are 2-3 forks at
+// the same height, none of them a vote target; every fork carries 1-3 voted descendants (directly below
+// it or one block further down), so a fork's weight only shows where its vote-nodes merge mid-edge
+// (VoteGraph.ghostFindMergePoint).  Heavy voters sit on different descendants of one fork, light voters
+// on the other forks and on the base.  One such justification is emitted under several permutations of
+// its precommits and with the targets GHOST-fork / base / another fork, as `vc` lines (hash order of the
+// siblings varied by `hp`) and as `just` lines (hash order varied by the header salt `hs`):
+// C19_order_independent says all permutations get the same verdict.
+
+var c19Queue []string
+
+func c19GenMerge(r *vhRng) []string {
+	c := &c19Case{w: 32}
+	if r.Bool() {
+		c.w = 64
+	}
+	c.off = []uint64{0, 1, 7, uint64(r.Intn(1000)), c.mask() - 4}[r.Intn(5)]
+	add := func(parent uint64) uint64 {
+		c.par = append(c.par, parent)
+		c.depth = append(c.depth, c.depth[parent]+1)
+		return uint64(len(c.par) - 1)
+	}
+	c.par, c.depth = []uint64{0}, []uint64{0}
+	nf := 2 + r.Intn(2)
+	forks := make([]uint64, nf)
+	for i := range forks {
+		forks[i] = add(0)
+	}
+	leaves := make([][]uint64, nf)
+	for i, f := range forks {
+		k := 1 + r.Intn(3)
+		if i == 0 && k < 2 {
+			k = 2 // the heavy fork merges at least two vote-nodes
+		}
+		for j := 0; j < k; j++ {
+			l := add(f)
+			if r.Chance(1, 4) {
+				l = add(l) // one block further down
+			}
+			leaves[i] = append(leaves[i], l)
+		}
+	}
+	// voters: two or three heavy ones on different leaves of fork 0, light ones elsewhere
+	id := uint64(0)
+	vote := func(blk, w uint64) {
+		c.voters = append(c.voters, [2]uint64{id, w})
+		c.pcs = append(c.pcs, c19Pc{blk: blk, num: c.num(blk), id: id})
+		id++
+	}
+	heavy := uint64(2 + r.Intn(2))
+	for j, l := range leaves[0] {
+		if j < 3 {
+			vote(l, heavy)
+		}
+	}
+	for i := 1; i < nf; i++ {
+		for _, l := range leaves[i] {
+			if r.Chance(2, 3) || len(c.pcs) < 3 {
+				vote(l, 1)
+			}
+		}
+	}
+	vote(0, 1) // the round base
+	if r.Chance(1, 3) {
+		vote(forks[r.Intn(nf)], 1) // now and then a fork is a vote target after all
+	}
+	exact := func() []uint64 {
+		seen := map[uint64]bool{}
+		var need []uint64
+		for _, p := range c.pcs {
+			for b := p.blk; b != 0; b = c.par[b] {
+				if !seen[b] {
+					seen[b] = true
+					need = append(need, b)
+				}
+			}
+		}
+		return need
+	}()
+	targets := []uint64{forks[0], 0, forks[1], leaves[0][0]}
+	var lines []string
+	for _, t := range targets[:2+r.Intn(3)] {
+		for rep := 0; rep < 2; rep++ { // two hash orders
+			hp, ip, hs := 1+r.Intn(96), 1+r.Intn(88), r.Intn(60000)
+			rd, st := r.Intn(3), r.Intn(3)
+			for perm := 0; perm < 5; perm++ {
+				pcs := append([]c19Pc{}, c.pcs...)
+				for i := len(pcs) - 1; i > 0; i-- {
+					j := r.Intn(i + 1)
+					pcs[i], pcs[j] = pcs[j], pcs[i]
+				}
+				var vops, jops []string
+				for _, p := range pcs {
+					vops = append(vops, fmt.Sprintf("%d %d %d 0", p.blk, p.num, p.id))
+					jops = append(jops, fmt.Sprintf("%d %d %d ok", p.blk, p.num, p.id))
+				}
+				if rep == 0 {
+					lines = append(lines, fmt.Sprintf("vc w=%d hp=%d ip=%d v=%s t=%s c=%d:%d|%s", c.w, hp, ip,
+						c19JoinPairs(c.voters), c19JoinList(c.par), t, c.num(t), strings.Join(vops, ";")))
+				} else {
+					hoff := c.off
+					if hoff >= 1<<30 {
+						hoff %= 1000
+					}
+					lines = append(lines, fmt.Sprintf("just w=%d hs=%d r=%d s=%d off=%d v=%s t=%s h=%s c=%d:%d ft=%d:%d|%s",
+						c.w, hs, rd, st, hoff, c19JoinPairs(c.voters), c19JoinList(c.par), c19JoinList(exact),
+						t, c.num(t), t, c.num(t), strings.Join(jops, ";")))
+				}
+				if perm%2 == 1 { // fresh hash order every other permutation
+					hp, hs = 1+r.Intn(96), r.Intn(60000)
+				}
+			}
+		}
+	}
+	return lines
+}
